@@ -1093,6 +1093,9 @@ def fromFunction(func, interface=None, imlevel=0, name=None):
     method = Method(name, func.__doc__)
     defaults = getattr(func, '__defaults__', None) or ()
     code = func.__code__
+    # A method's ``self`` need not be a named parameter: ``def m(*args)``
+    # receives it in ``args``, and then there is no leading name to drop.
+    imlevel = min(imlevel, code.co_argcount)
     # Number of positional arguments
     na = code.co_argcount - imlevel
     names = code.co_varnames[imlevel:]
